@@ -33,6 +33,14 @@ def toRat : F64 → Option Rat
   | .fin s m e => some ((if s then -1 else 1) * ((m : Int) : Rat) * pow2 e)
   | _ => none
 
+/-- the datum denotes a binary64 value (not necessarily normalised) -/
+def wf : F64 → Bool
+  | .fin _ m e => decide (m < two53) && decide (eMin ≤ e) && decide (e ≤ eMax)
+  | _ => true
+
+/-- exact value of a finite, well-formed datum -/
+def val (a : F64) : Option Rat := if a.wf then toRat a else none
+
 def signBit : F64 → Bool
   | .fin s _ _ => s
   | .inf s => s
@@ -156,7 +164,7 @@ def arith : Arith F64 where
   neg := fun a => .ok (neg a)
   beq := beq
   pcmp := pcmp
-  val := toRat
+  val := val
   ofLit := ofLit
   same := same
 
